@@ -21,6 +21,8 @@ from vlib.hk import CFG, begin, ok, fail, skip, B, run, cat, concrete
 envkit.install()
 FLAGS = FlagParser.initialize(['--threadless'])
 FLAGS_T = FlagParser.initialize(['--threaded'])
+# the proxy endpoint itself speaks TLS: initialize() replaces the handler's client connection object by the wrapped one
+FLAGS_TLS = FlagParser.initialize(['--threadless', '--key-file', '/etc/p/key.pem', '--cert-file', '/etc/p/cert.pem'])
 
 
 class _LoopShim:
@@ -69,8 +71,8 @@ def predicate(timeout: int, d0: int, d1: int, d2: int, d3: int, d4: int) -> bool
     with concrete():
         env = envkit.new_env()
         env.clock = 1000
-        h, cs, us = _tunnel(_flags(FLAGS, 10), env)
-    h.flags = _flags(FLAGS, timeout)
+        h, cs, us = _tunnel(_flags(FLAGS_TLS if CFG.get('tls') else FLAGS, 10), env)
+    h.flags = _flags(FLAGS_TLS if CFG.get('tls') else FLAGS, timeout)
     last = env.clock             # last client-side activity (reference, computed from the trace)
     for i, e in enumerate(trace):
         env.clock = env.clock + ds[i]
@@ -121,6 +123,24 @@ class Exec(ThreadlessFdExecutor):
         return None
 
 
+class _PendingTask:
+    """A handle_events task that asyncio.wait() reported as not finished yet."""
+
+    def __init__(self, work_id):
+        self._work_id = work_id
+        self.seq = 10 ** 6 + work_id
+
+    def done(self):
+        return False
+
+    def cancel(self):
+        return True
+
+    def result(self):
+        import asyncio
+        raise asyncio.InvalidStateError('Result is not set.')
+
+
 def reaper(timeout: int, a0: int, a1: int, now: int) -> bool:
     """
     pre: 1 <= timeout <= 86400
@@ -148,8 +168,18 @@ def reaper(timeout: int, a0: int, a1: int, now: int) -> bool:
     env.clock = 1000 + now
     if now < a0 or now < a1:
         return skip()
+    inflight = CFG.get('inflight')
+    if inflight:
+        # asyncio.wait() may hand a task back as still pending (a handler that really awaits): it sits in `unfinished` while the worker
+        # is quiet. The connection is judged by its own traffic; two sweeps with a quiet iteration in between bound the delay.
+        for i, s in enumerate(socks):
+            if inflight[i]:
+                ex.unfinished.add(_PendingTask(s.fd))
     try:
         ex._cleanup_inactive()
+        if inflight:
+            run(ex._run_once())
+            ex._cleanup_inactive()
     except Exception as e:
         return fail('_cleanup_inactive raised', exc=repr(e))
     for i, s in enumerate(socks):
@@ -384,8 +414,12 @@ def obligations(tier):
             set(t for t in traces if ('Q' in t or 'U' in t) and ('R' in t or 'W' in t) and '-' not in t and 'u' not in t)
     for t in sorted(traces):
         obs.append({'name': 'predicate.%s' % (t or 'none'), 'fn': 'predicate', 'cfg': {'trace': t}, 'timeout': 200})
+    for t in ('', 'Q', 'R', 'QW', 'RQ', 'UQ', 'QR', 'WQ') + (() if tier == 'quick' else ('RQW', 'QUW', 'QQ', 'UQR', 'RWQ')):
+        obs.append({'name': 'predicate.tls_endpoint.%s' % (t or 'none'), 'fn': 'predicate', 'cfg': {'trace': t, 'tls': True}, 'timeout': 200})
     for pend in ([0, 0], [1, 0], [0, 1], [1, 1]):
         obs.append({'name': 'reaper.pending%d%d' % tuple(pend), 'fn': 'reaper', 'cfg': {'pending': pend}, 'timeout': 300})
+    for infl in ([1, 0], [0, 1], [1, 1]):
+        obs.append({'name': 'reaper.task_in_flight%d%d' % tuple(infl), 'fn': 'reaper', 'cfg': {'pending': [0, 0], 'inflight': infl}, 'timeout': 300})
     obs.append({'name': 'threaded.run', 'fn': 'threaded', 'cfg': {}, 'timeout': 300})
     obs.append({'name': 'concrete.float_timeout', 'kind': 'concrete', 'fn': 'float_timeout', 'cfg': {}, 'group': 'concrete',
                 'args_list': [[19, 13], [19, 20], [19, 19], [5, 3], [5, 6], [100, 99], [100, 101], [25, 24], [25, 26]], 'timeout': 60})
@@ -399,8 +433,8 @@ META = {
     'bounds': {
         'quick': 'predicate: timeout symbolic 1..86400, all traces of <=2 events and the mixed traces of 3 events over {client read, client '
                  'write-flush, upstream data, upstream flush, output queued, nothing} with symbolic non-negative integer clock increments before '
-                 'each event and before the check; reaper: two works with symbolic last-activity times, symbolic now and timeout, each with or '
-                 'without pending output; threaded run(): 3 iterations with symbolic clock increments; tick kernel: any starting tick within '
+                 'each event and before the check (8 of these traces also on a TLS proxy endpoint, --key-file/--cert-file, where the handler swaps its client connection object); reaper: two works with symbolic last-activity times, symbolic now and timeout, each with or '
+                 'without pending output, and with a handle_events task still reported pending by asyncio.wait (two sweeps, a quiet iteration between); threaded run(): 3 iterations with symbolic clock increments; tick kernel: any starting tick within '
                  'one period, period+1 iterations unrolled, constants read from the module',
         'thorough': 'all traces of 4 events',
     },
